@@ -43,7 +43,7 @@ RULE = ("measurement type (5), 0-3 ensemble axes (ordinal/scan/plain/frozen-phon
 CLAUSES = ["counts-nonnegative-whole", "expectation", "seed-reproducible", "lazy-equals-eager", "independent-no-duplicates",
            "independent-correlation", "block-hook"]
 QUICK = dict(n=300, time=45)
-THOROUGH = dict(n=8000, time=400, shards=16)
+THOROUGH = dict(n=64000, time=480, shards=16)
 
 FINDING = "C31-seeded-lazy-noise-per-block-stream"
 P6 = 1.973175290075396e-09       # two-sided normal tail beyond 6 sigma
